@@ -134,6 +134,23 @@ func (w *World) nextTime() time.Time {
 			w.Flags["block-on-expiry"] = true
 			return e
 		}
+	case x < 40:
+		// around the next boundary of a calendar unit (year, month, day in UTC): date logic changes there
+		var b time.Time
+		switch w.intn("calunit", 3) {
+		case 0:
+			b = time.Date(bt.Year()+1, 1, 1, 0, 0, 0, 0, time.UTC)
+		case 1:
+			b = time.Date(bt.Year(), bt.Month()+1, 1, 0, 0, 0, 0, time.UTC)
+		default:
+			b = time.Date(bt.Year(), bt.Month(), bt.Day()+1, 0, 0, 0, 0, time.UTC)
+		}
+		off := []time.Duration{0, -time.Nanosecond, time.Nanosecond, -time.Hour, time.Hour, -9 * time.Hour, 8 * time.Hour, -13 * time.Hour, 11 * time.Hour}[w.intn("caloff", 9)]
+		if t := b.Add(off); t.After(bt) {
+			w.Flags["block-near-calendar-boundary"] = true
+			return t
+		}
+		return b
 	case x < 45:
 		return bt.Add(time.Nanosecond)
 	case x < 55:
